@@ -10,13 +10,14 @@ precedence splitting (or < xor < and < juxtaposition).
 from hypothesis import strategies as st
 
 from vlib import gen, ref, sut
+from vlib import large
 from vlib.core import Stage, fail
 
 ID = "C01"
 MANIFEST = {
     "category": "exploration",
-    "text": "Generated-input search: ASTs over all five key kinds with n-ary operator nodes are rendered in 2-3 spellings (letters in both cases, MaKo2022 symbols, Lark-WS whitespace anywhere between tokens, redundant brackets) and parsed; the resulting Lark tree must be some in-order binary bracketing of exactly the AST (brackets > juxtaposition > U > X > O, grouping inside one-operator runs free). Bracket-free mixed chains of up to 12 (thorough 30) atoms get their expected AST by precedence splitting. One slice is enumerated completely: every operator sequence over {O, X, U, juxtaposition} for bracket-free chains of 2-4 (thorough 2-6) atoms, in every combination of the three spellings per operator, with and without blanks. Apart from that slice the search is bounded by expression size (Earley is cubic) and never exhaustive.",
-    "note": "Trusted: the AST matcher and precedence splitter in vlib/ref.py, the renderer in vlib/gen.py, Hypothesis. Size bound 12 atoms (quick) / 30 atoms (thorough). Process configuration by shard (vlib/sut.py; recorded in replay files): plain / parse caches preheated beyond their size / warnings attributed to ahbicht raised as errors / logging fully enabled with every record rendered.",
+    "text": "Generated-input search: ASTs over all five key kinds with n-ary operator nodes are rendered in 2-3 spellings (letters in both cases, MaKo2022 symbols, Lark-WS whitespace anywhere between tokens, redundant brackets) and parsed; the resulting Lark tree must be some in-order binary bracketing of exactly the AST (brackets > juxtaposition > U > X > O, grouping inside one-operator runs free). Bracket-free mixed chains of up to 12 (thorough 30) atoms get their expected AST by precedence splitting. One slice is enumerated completely: every operator sequence over {O, X, U, juxtaposition} for bracket-free chains of 2-4 (thorough 2-6) atoms, in every combination of the three spellings per operator, with and without blanks. Apart from that slice the search is bounded by expression size (Earley is cubic) and never exhaustive. Stage long-runs (enumerated): runs of 33-40 (thorough: -64) operands of one operator below a different root operator must come back as one composition.",
+    "note": "Trusted: the AST matcher and precedence splitter in vlib/ref.py, the renderer in vlib/gen.py, Hypothesis. Size bound 12 atoms (quick) / 30 atoms (thorough). Process configuration by shard (vlib/sut.py; recorded in replay files): plain / parse caches preheated beyond their size / warnings attributed to ahbicht raised as errors / logging fully enabled with every record rendered; one event loop per process or a new one per call; five process time zones; the hash seed is the shard number; namesakes of ahbicht's marshmallow schema classes are registered.",
     "technique": "property-based testing with a by-construction oracle (AST -> render -> parse -> structural match)",
 }
 LEVEL = "exploration"
@@ -257,4 +258,5 @@ STAGES = [
           sample=lambda c: {"s": c["s"], "expected": ref.canonical(ref.split_by_precedence(c["atoms"], c["gaps"]))}),
     Stage(name="small-chains", kind="enum", check=check_small_chain, classify=lambda c, i: ([f"len={len(c['gaps']) + 1}"], True),
           enumerate=enumerate_small_chains, exhaustive=True),
+    large.stage("long-runs", large.c01_check, large.c01_cases),
 ]  # fmt: skip
